@@ -155,6 +155,13 @@ def p_C12(l):
     if l.kind == "obs": return "obs %d" % l.inst + fields(l, ["active", "on", "ser"])
     return None
 
+def p_C14(l):
+    if l.kind == "api": return api_line(l, False)
+    if l.kind == "cb": return cb_head(l) + fields(l, ["id"])
+    if l.kind == "did" and l.act[0] in ("change", "changeWith"): return "did %d change %s -> %s" % (l.inst, l.act[1], l.res)
+    if l.kind == "obs": return "obs %d" % l.inst + fields(l, ["active", "act"])
+    return None
+
 def p_C15(l):
     if l.kind == "api": return api_line(l, False)
     if l.kind == "cb": return cb_head(l)
